@@ -2,6 +2,7 @@ package compiler
 
 import (
 	"fmt"
+	"strings"
 
 	"github.com/grafana/cog/internal/ast"
 )
@@ -15,11 +16,24 @@ type RenameObject struct {
 
 func (pass *RenameObject) Process(schemas []*ast.Schema) ([]*ast.Schema, error) {
 	visitor := &Visitor{
-		OnObject: pass.processObject,
-		OnRef:    pass.processRef,
+		OnObject:      pass.processObject,
+		OnRef:         pass.processRef,
+		OnConstantRef: pass.processConstantRef,
+		OnDisjunction: pass.processDisjunction,
 	}
 
-	return visitor.VisitSchemas(schemas)
+	schemas, err := visitor.VisitSchemas(schemas)
+	if err != nil {
+		return nil, err
+	}
+
+	for _, schema := range schemas {
+		if schema.Package == pass.From.Package && strings.EqualFold(schema.EntryPoint, pass.From.Object) {
+			schema.EntryPoint = pass.To
+		}
+	}
+
+	return schemas, nil
 }
 
 func (pass *RenameObject) processObject(visitor *Visitor, schema *ast.Schema, object ast.Object) (ast.Object, error) {
@@ -41,8 +55,39 @@ func (pass *RenameObject) processObject(visitor *Visitor, schema *ast.Schema, ob
 }
 
 func (pass *RenameObject) processRef(_ *Visitor, _ *ast.Schema, def ast.Type) (ast.Type, error) {
-	if def.Ref.ReferredPkg == pass.From.Package && def.Ref.ReferredType == pass.From.Object {
+	if pass.From.MatchesRef(def.AsRef()) {
 		def.Ref.ReferredType = pass.To
+	}
+
+	return def, nil
+}
+
+func (pass *RenameObject) processConstantRef(_ *Visitor, _ *ast.Schema, def ast.Type) (ast.Type, error) {
+	constantRef := def.AsConstantRef()
+	if pass.From.MatchesRef(ast.RefType{ReferredPkg: constantRef.ReferredPkg, ReferredType: constantRef.ReferredType}) {
+		def.ConstantReference.ReferredType = pass.To
+	}
+
+	return def, nil
+}
+
+func (pass *RenameObject) processDisjunction(visitor *Visitor, schema *ast.Schema, def ast.Type) (ast.Type, error) {
+	var err error
+
+	// discriminator mappings refer to objects of the current schema by name.
+	if schema.Package == pass.From.Package {
+		for discriminator, typeName := range def.Disjunction.DiscriminatorMapping {
+			if strings.EqualFold(typeName, pass.From.Object) {
+				def.Disjunction.DiscriminatorMapping[discriminator] = pass.To
+			}
+		}
+	}
+
+	for i, branch := range def.Disjunction.Branches {
+		def.Disjunction.Branches[i], err = visitor.VisitType(schema, branch)
+		if err != nil {
+			return ast.Type{}, err
+		}
 	}
 
 	return def, nil
